@@ -717,9 +717,14 @@ func Worker(o core.WorkerOpts) *core.Report {
 				return rr.HarnessErr == "" && rr.Violation != nil && rr.Violation.Signature() == v.Signature()
 			}, 120)
 			fr := Execute(min, true, o.Bin)
-			if fr.Violation != nil {
-				l.AddReplay(*fr.Violation, caseSeed, min, c, fr.Trace.Events, fr.Trace.Hash(), used, "controlled")
+			if fr.Violation == nil {
+				min = c
+				fr = Execute(c, true, o.Bin)
+				if fr.Violation == nil {
+					fr.Violation = &v
+				}
 			}
+			l.AddReplay(*fr.Violation, caseSeed, min, c, fr.Trace.Events, fr.Trace.Hash(), used, "controlled")
 		}
 	})
 	l.Rep.SaveHashes(o.OutDir, "nontrivial_cases", distinct)
